@@ -18,7 +18,7 @@ RULE = ("read: (instant stratum x notation {date, date-time, +ms, +offset, offse
         "A case = (operation, text or value); non-trivial = the library was called and its result compared with the reference")
 ASSUMPTIONS = ["ref_types.py (days-from-civil integer arithmetic) is correct (self-tested)",
                "written values include zones whose offset depends on the date (hand-written PEP 495 tzinfo with fold); the instant a value denotes is value - tzinfo.utcoffset(value), computed by Python's aware arithmetic",
-               "UNSPECIFIED, not judged: SS=60, offsets beyond -12:00..+14:00 or with seconds, years outside 1900-2200, zone names containing ] [ < &, the '[-:EST]' broker form"]
+               "offset HOURS outside -12..+14 and minutes outside 00..59 in a text are refused (judged); UNSPECIFIED, not judged: SS=60, +14.01..+14.59 and -12.01..-12.59, offsets with seconds (values), years outside 1900-2200, zone names containing ] [ < &, the '[-:EST]' broker form"]
 LEVEL_TEXT = ("Exploration, exhaustive over the offset dimension: every whole-minute UTC offset in every spelling is read and written every run; "
               "instants are stratified over month/year ends, leap days, midnight and sub-millisecond rounding carries; every single-field "
               "corruption of valid texts must be refused. The converters are small pure functions, so offset x notation x stratified instants reaches their branches.")
@@ -265,6 +265,21 @@ def corruptions(text, kind):
     # one character more than the notation has: a line break or blank at either end (a '$' anchor lets a final line break through)
     out += [(text + "\n", "length-trailing-newline"), (text + "\r\n", "length-trailing-crlf"), ("\n" + text, "length-leading-newline"),
             (text + " ", "length-trailing-blank"), (text + "\x00", "length-trailing-nul")]
+    # the offset field itself: hours that are no signed number (a fallback that infers the offset from a zone NAME must not take junk
+    # for "no hours given"), hours and minutes beyond the clock (-12 .. +14 hours, 0 .. 59 minutes)
+    mo = re.search(r"\[([+-]?[0-9]+)((?:\.[0-9]{2})?)((?::[^\]]*)?)\]\Z", text)
+    if mo:
+        head = text[: mo.start()]
+        for junk in ("5-3", "+-", "--5", "5+", "1-2", "-+5", "5 ", "+ 5"):
+            out.append((f"{head}[{junk}{mo.group(2)}{mo.group(3)}]", "offset-hours-junk"))
+            out.append((f"{head}[{junk}:EST]", "offset-hours-junk"))
+        for far in ("+15", "-13", "99", "+24", "-99"):
+            out.append((f"{head}[{far}{mo.group(2)}{mo.group(3)}]", "offset-hours-out-of-range"))
+        for mins in (".60", ".99", ".75"):
+            out.append((f"{head}[{mo.group(1)}{mins}{mo.group(3)}]", "offset-minutes-out-of-range"))
+        hs = mo.start(1) + (1 if text[mo.start(1)] in "+-" else 0)
+        for base in (0x0660, 0xFF10):
+            out.append((text[:hs] + chr(base + int(text[hs])) + text[hs + 1:], "non-ascii-digit"))
     # a digit that is not an ASCII digit (what \d and int() take for one), in every numeric field incl. the offset minutes
     m = re.search(r"\[[+-]?[0-9]+\.([0-9]{2})", text)
     spots = [i for i in range(len(text)) if text[i].isdigit() and "[" not in text[:i]][::3]
